@@ -244,6 +244,9 @@ func handleShareMemoryByMemFd(s *Session, h header) error {
 	//4.mapping share memory
 	qm, err := mappingQueueManagerMemfd(queuePath, queueFd)
 	if err != nil {
+		// nobody else knows the received descriptors
+		_ = syscall.Close(queueFd)
+		_ = syscall.Close(bufferFd)
 		return err
 	}
 	s.queueManager = qm
